@@ -130,6 +130,15 @@ func (env *Env) evalCall(x *ast.CallExpr, st *State) Val {
 					t = env.typeOfExpr(cl.Type)
 				}
 				return jsonDecoded(env, d, t)
+			case "held":
+				// held(x.mu): the mutex is held at this point of the path
+				if sel, ok := unparen(x.Args[0]).(*ast.SelectorExpr); ok {
+					base := env.eval(sel.X, st)
+					if st.held[base.T+"."+sel.Sel.Name] || st.held["*."+sel.Sel.Name] {
+						return boolVal("true")
+					}
+				}
+				return boolVal("false")
 			case "called":
 				// called(Name): a call of Name happened on the path that reached this point
 				// (loops forget the calls of their bodies: use it for straight-line code)
@@ -197,9 +206,6 @@ func (env *Env) evalCall(x *ast.CallExpr, st *State) Val {
 					w = 1
 				}
 				return env.c.seqElem(env, st, env.sortOf(sq.Ty), sig, sq, i, w)
-			case "held":
-				// held(mu-expr): lock token
-				return boolVal("true")
 			}
 		}
 	}
@@ -2017,6 +2023,9 @@ func (c *Ctx) genericInstances(tt types.Type, base string) []string {
 	n, ok := types.Unalias(tt).(*types.Named)
 	if !ok || n.TypeParams() == nil || n.TypeParams().Len() == 0 || (n.TypeArgs() != nil && n.TypeArgs().Len() > 0) {
 		return nil
+	}
+	if !strings.HasPrefix(base, "St_") {
+		return nil // library types are one opaque sort whatever their type arguments
 	}
 	var out []string
 	for name := range c.e.types.structs {
